@@ -518,36 +518,43 @@ class _SubsetMixin(_IndexMixin):
                 self, X, Y=Y, eval_gradient=eval_gradient, **kwargs
             )
         self._locked = True
-        if Y is not None:
-            Y = Y[:, self.indexes]
-        X = X[:, self.indexes]
-        result = self._base_cls.__call__(
-            self, X, Y=Y, eval_gradient=eval_gradient, **kwargs
-        )
-        self._locked = False
+        try:
+            if Y is not None:
+                Y = Y[:, self.indexes]
+            X = X[:, self.indexes]
+            result = self._base_cls.__call__(
+                self, X, Y=Y, eval_gradient=eval_gradient, **kwargs
+            )
+        finally:
+            # release the lock even if the base kernel rejects the call
+            self._locked = False
         return result
 
     def diag(self, X):
         if self._locked:
             return self._base_cls.diag(self, X)
         self._locked = True
-        result = self._base_cls.diag(self, X[:, self.indexes])
-        self._locked = False
+        try:
+            result = self._base_cls.diag(self, X[:, self.indexes])
+        finally:
+            self._locked = False
         return result
 
     def k_and_deriv(self, X, Y=None):
         if self._locked:
             return self._base_cls.k_and_deriv(self, X, Y=Y)
         self._locked = True
-        if Y is not None:
-            Y = Y[:, self.indexes]
-            shape = (X.shape[0], Y.shape[0], X.shape[1])
-        else:
-            shape = (X.shape[0], X.shape[0], X.shape[1])
-        dk = np.zeros(shape)
-        X = X[:, self.indexes]
-        k, dk[:, :, self.indexes] = self._base_cls.k_and_deriv(self, X, Y=Y)
-        self._locked = False
+        try:
+            if Y is not None:
+                Y = Y[:, self.indexes]
+                shape = (X.shape[0], Y.shape[0], X.shape[1])
+            else:
+                shape = (X.shape[0], X.shape[0], X.shape[1])
+            dk = np.zeros(shape)
+            X = X[:, self.indexes]
+            k, dk[:, :, self.indexes] = self._base_cls.k_and_deriv(self, X, Y=Y)
+        finally:
+            self._locked = False
         return k, dk
 
 
@@ -592,19 +599,24 @@ class _SpinSymMixin(_IndexMixin):
                 self, X, Y=Y, eval_gradient=eval_gradient, **kwargs
             )
         self._locked = True
-        if Y is not None:
-            Y = np.vstack((Y[:, self.alpha_ind], Y[:, self.beta_ind]))
-        else:
-            Y = None
-        X = np.vstack((X[:, self.alpha_ind], X[:, self.beta_ind]))
-        NX = X.shape[0] // 2
-        NY = Y.shape[0] // 2 if Y is not None else NX
-        k = self._base_cls.__call__(self, X, Y=Y, eval_gradient=eval_gradient, **kwargs)
+        try:
+            if Y is not None:
+                Y = np.vstack((Y[:, self.alpha_ind], Y[:, self.beta_ind]))
+            else:
+                Y = None
+            X = np.vstack((X[:, self.alpha_ind], X[:, self.beta_ind]))
+            NX = X.shape[0] // 2
+            NY = Y.shape[0] // 2 if Y is not None else NX
+            k = self._base_cls.__call__(
+                self, X, Y=Y, eval_gradient=eval_gradient, **kwargs
+            )
+        finally:
+            # release the lock even if the base kernel rejects the call
+            self._locked = False
         if eval_gradient:
             k, dk = k
         k = k[:NX] + k[NX:]
         k = k[:, :NY] + k[:, NY:]
-        self._locked = False
         if eval_gradient:
             dk = dk[:NX] + dk[NX:]
             dk = dk[:, :NY] + dk[:, NY:]
@@ -628,15 +640,18 @@ class _SpinSymMixin(_IndexMixin):
         if self._locked:
             return self._base_cls.k_and_deriv(self, X, Y=Y)
         self._locked = True
-        Nfeat = X.shape[1]
-        if Y is not None:
-            Y = np.vstack((Y[:, self.alpha_ind], Y[:, self.beta_ind]))
-        else:
-            Y = None
-        X = np.vstack((X[:, self.alpha_ind], X[:, self.beta_ind]))
-        NX = X.shape[0] // 2
-        NY = Y.shape[0] // 2 if Y is not None else NX
-        k, dk = self._base_cls.k_and_deriv(self, X, Y=Y)
+        try:
+            Nfeat = X.shape[1]
+            if Y is not None:
+                Y = np.vstack((Y[:, self.alpha_ind], Y[:, self.beta_ind]))
+            else:
+                Y = None
+            X = np.vstack((X[:, self.alpha_ind], X[:, self.beta_ind]))
+            NX = X.shape[0] // 2
+            NY = Y.shape[0] // 2 if Y is not None else NX
+            k, dk = self._base_cls.k_and_deriv(self, X, Y=Y)
+        finally:
+            self._locked = False
         k = k[:NX] + k[NX:]
         k = k[:, :NY] + k[:, NY:]
         dk = dk[:, :NY] + dk[:, NY:]
@@ -644,7 +659,6 @@ class _SpinSymMixin(_IndexMixin):
         # accumulate, since a column can be in both alpha_ind and beta_ind
         dkfull[:, :, self.alpha_ind] += dk[:NX]
         dkfull[:, :, self.beta_ind] += dk[NX:]
-        self._locked = False
         return k, dkfull
 
 
